@@ -1496,12 +1496,10 @@ public:
             // non-reference values in the region and from now on, we
             // only stores references.
             //
-            // The argument to make uninitialized the region is that
-            // previous writes must have happened in different
-            // locations because those writes wrote values of
-            // different types.
+            // The region cannot be marked as uninitialized: this
+            // store writes a reference into it, which a later strong
+            // update at another location must not overwrite.
 
-            new_rgn_info.init_val() = boolean_value::get_false();
             new_rgn_info.type_val() = variable_type::mk_region(val.get_type());
 
             m_ghost_var_man.forget(rgn, m_base_dom);
